@@ -795,7 +795,7 @@ pub fn meta() -> CheckMeta {
         level: "exploration",
         rule: "(a) real Client/Server/SOCKS5/HTTP over loopback: accepting (banner + echo), refusing (closed port) and unresolvable (fake-DNS NXDOMAIN) targets through create_proxy_stream, SOCKS5 (also with an application that sends greeting+request+data in one segment), HTTP CONNECT and HTTP GET, 32 in flight on shared sessions; outcome compared with the scripted truth, accept log and bytes seen at the targets; a failure that only ends after > 20 s means the server's reason was never reported. (b) the real Client against a scripted TLS peer: SYNACK ok/error at 0-1.5 s (thorough: 10 s, 25 s, 20 s, never, 33 s), ok-then-error, error-then-ok, answers for unknown ids then ok, ok before the destination frame, connection close and Alert during the wait; verdict, completion time window and error text checked. (c) session level, virtual time: first-outcome-wins over SYNACK sequences with stray answers for unknown ids, and session death; plus a peer that answers each SYN the moment it has parsed it while the client's padded write is still crawling through a 1-64 byte transport. distinct_nontrivial = distinct cases. Every scripted answer is also played through the SOCKS5 front-end and the HTTP CONNECT front-end: the application is told success (reply 00 / status 200) iff the scripted server said success, inside the same time window; closing without a reply counts as failure. Names of more than 255 bytes but at most 255 characters (multi-byte UTF-8), which the tunnel's one-byte length field cannot carry, through create_proxy_stream and HTTP CONNECT, one at a time: the open must fail and no Destination / Dial event and no target connection may result.".into(),
         assumptions: vec!["real-time windows are generous (+4-5 s) and only decide between well-separated instants".into(), "exactly-once completion of create_proxy_stream itself is structural (an async fn returns once); for SOCKS5/HTTP a second reply after a failure reply is looked for".into()],
-        floors: vec![("scripted_peer_cases", 10), ("real_stack_opens", 30), ("successful_opens_confirmed_by_accept", 8), ("failed_opens_reported_as_failure", 10), ("first_outcome_sequences", 6), ("early_answer_opens", 15), ("opens_for_names_longer_than_the_length_field", 8), ("scripted_peer_cases_through_a_front_end", 15)],
+        floors: vec![("scripted_peer_cases", 10), ("real_stack_opens", 30), ("successful_opens_confirmed_by_accept", 8), ("failed_opens_reported_as_failure", 10), ("first_outcome_sequences", 6), ("early_answer_opens", 15), ("opens_for_names_longer_than_the_length_field", 8), ("scripted_peer_cases_through_a_front_end", 15), ("same_name_other_port_opens", 10)],
         exhaustive: false,
     }
 }
